@@ -7,7 +7,7 @@
    the pair round-trips: every non-NaN value and the canonical NaN). *)
 From Coq Require Import List NArith ZArith Bool.
 From NV Require Import Base.Percent Base.PercentProofs Text.TextBase Vcf.Values Vcf.ValuesProofs
-  Vcf.GenotypeProofs Vcf.SampleProofs Vcf.Span Vcf.Record Vcf.SpanProofs Vcf.Line Vcf.LineProofs.
+  Vcf.GenotypeProofs Vcf.SampleProofs Vcf.Span Vcf.Record Vcf.SpanProofs Vcf.Line Vcf.LineProofs Vcf.Header Vcf.HeaderProofs.
 Import ListNotations.
 Open Scope N_scope.
 
@@ -100,7 +100,7 @@ Print Assumptions c09_record_roundtrip_partial.
    rec_ok lists what the writer does not check itself: IDs non-empty / not the lone "." / distinct,
    REF non-empty, ALT and FILTER not [""] or ["."], QUAL in FOK, INFO keys distinct and values of
    the key's effective definition (or Flag / String under an undefined key), the sample count of
-   the header, FORMAT keys present and distinct, values fitting a prefix of the keys and no sample
+   the header, FORMAT keys distinct, values fitting a prefix of the keys and no sample
    written as an empty column.  The witnesses below show these conditions are needed. *)
 Theorem c09_record_line_roundtrip :
   forall fmt_float prs_float (FOK : N -> Prop),
@@ -144,40 +144,49 @@ Print Assumptions c09_canon_spec.
 
 (* records the writer accepts outside rec_ok (vm_compute witnesses, each reproduced on the
    implementation by `line` cases): an ID "." comes back as no ID and REF "R" as "A"; an empty REF
-   is written as an empty column that the eager reader rejects while the lazy record returns it;
-   samples without FORMAT keys are written ". . ." and come back as two samples (eager) / none
-   (lazy) *)
+   is written as an empty column that the eager reader rejects while the lazy record returns it *)
 Theorem c09_line_witnesses :
   (exists r t, write_line w_fmt (h0 0) r = Some t /\ r_ids r = [dot] /\
      read_eager w_prs (h0 0) t = Some r0 /\ read_lazy w_prs (h0 0) t = Some r0) /\
   (exists r t, write_line w_fmt (h0 0) r = Some t /\
-     read_eager w_prs (h0 0) t = None /\ read_lazy w_prs (h0 0) t = Some r) /\
-  (exists r t, write_line w_fmt (h0 2) r = Some t /\ length (r_samples r) = 2%nat /\
-     read_eager w_prs (h0 2) t = Some r /\ read_lazy w_prs (h0 2) t = Some r0).
+     read_eager w_prs (h0 0) t = None /\ read_lazy w_prs (h0 0) t = Some r).
 Proof.
-  split; [|split].
+  split.
   - destruct witness_id_dot as (t & A & B & C). eexists; exists t.
     split; [exact A|]. split; [reflexivity|]. split; assumption.
   - destruct witness_empty_ref as (t & A & B & C). eexists; exists t.
     split; [exact A|]. split; assumption.
-  - destruct witness_format_missing as (t & A & B & C). eexists; exists t.
-    split; [exact A|]. split; [reflexivity|]. split; assumption.
 Qed.
 Print Assumptions c09_line_witnesses.
 
-(* KNOWN DEFECT lazy-samples-dropped-format-missing: lazy = eager fails on a written line -- samples
-   without FORMAT keys are written ". . ."; the eager reader returns the two samples, the lazy
-   record none (Fields::samples collapses a FORMAT "." column) *)
-Theorem c09_lazy_ne_eager_format_missing_refuted :
-  exists h r t re rl, write_line w_fmt h r = Some t /\
-    read_eager w_prs h t = Some re /\ read_lazy w_prs h t = Some rl /\
-    re = r /\ length (r_samples re) = 2%nat /\ r_samples rl = [].
+(* FORMER DEFECT lazy-samples-dropped-format-missing (repaired, 6449b9b): samples without FORMAT keys
+   are written ". . ."; the lazy record used to return no samples.  Now such records are inside
+   rec_ok (no condition on the keys is left) and come back from both readers: an instance of
+   c09_record_line_roundtrip, stated for itself, with the former witness as an example *)
+Theorem c09_format_missing_roundtrip :
+  forall fmt_float prs_float (FOK : N -> Prop),
+  (forall b, FOK b -> prs_float (fmt_float b) = Some b) ->
+  (forall b x, FOK b -> In x (fmt_float b) -> x <> 44 /\ x <> 9 /\ x <> 10 /\ x <> 59 /\ x <> 58) ->
+  (forall b, FOK b -> fmt_float b <> dot) ->
+  (forall b, FOK b -> fmt_float b <> []) ->
+  forall h r t,
+  rec_ok fmt_float FOK h r -> r_keys r = [] -> write_line fmt_float h r = Some t ->
+  read_eager prs_float h t = Some (canon h r) /\ read_lazy prs_float h t = Some (canon h r) /\
+  r_keys (canon h r) = [] /\ length (r_samples (canon h r)) = length (r_samples r).
 Proof.
-  destruct witness_format_missing as (t & A & B & C).
-  eexists; eexists; exists t; eexists; eexists.
-  split; [exact A|]. split; [exact B|]. split; [exact C|]. repeat split.
+  intros fmt prs FOK H1 H2 H3 H4 h r t Hok Hk Hw.
+  destruct (line_roundtrip fmt prs FOK H1 H2 H3 H4 h r t Hok Hw) as (A & B & _).
+  repeat split; try assumption. cbn. now rewrite map_length.
 Qed.
-Print Assumptions c09_lazy_ne_eager_format_missing_refuted.
+Print Assumptions c09_format_missing_roundtrip.
+
+Example c09_format_missing_example :
+  exists r t, write_line w_fmt (h0 2) r = Some t /\ length (r_samples r) = 2%nat /\ r_keys r = [] /\
+    read_eager w_prs (h0 2) t = Some r /\ read_lazy w_prs (h0 2) t = Some r.
+Proof.
+  destruct witness_format_missing as (t & A & B & C). eexists; exists t.
+  split; [exact A|]. split; [reflexivity|]. split; [reflexivity|]. split; assumption.
+Qed.
 
 (* FORMER DEFECT lazy-record-cr-before-empty-last-column-panic (repaired, fb10cd9): a line whose INFO
    column ends with CR and is followed by TAB LF made the lazy record's accessors panic.  The
@@ -217,9 +226,65 @@ Definition c09_record_roundtrip_full_statement
     read_eager h t = Some r /\ read_lazy h t = Some r /\
     (forall r', read_lazy h t = Some r' -> span h r' = span h r).
 
-Definition c09_header_roundtrip_full_statement
-  (header text : Type) (write_header : header -> text) (parse_header : text -> option header) : Prop :=
-  forall h, parse_header (write_header h) = Some h.
+(* HEADER (NV.Vcf.Header: fileformat, INFO/FORMAT/FILTER/ALT/contig map lines, unstructured ##key=value
+   lines, the #CHROM line; writer and parser compared with the implementation on generated headers
+   and on arbitrary header text).  Proved: the value grammar, the field loop and every typed map
+   line; the composition over the whole list of lines is still a statement only. *)
+
+(* any byte string written as a quoted value (backslash before backslash and quote) is read back,
+   whatever follows the closing quote *)
+Theorem c09_header_string_roundtrip : forall s rest, p_value (w_hstring s ++ rest) = Some (s, rest).
+Proof. exact p_value_hstring. Qed.
+Print Assumptions c09_header_string_roundtrip.
+
+(* the field loop of a map line <k=v,k="v",...> : keys without '=' (not starting with '>'), raw
+   values without ',' '>' and not starting with a quote, quoted values arbitrary; what follows the
+   closing '>' is ignored *)
+Theorem c09_header_fields_roundtrip : forall fs rest, fs <> [] -> Forall wf_ok fs ->
+  p_map_fields (60 :: join 44 (map wf_text fs) ++ 62 :: rest) =
+  Some (map (fun f => (wf_key f, wf_val f)) fs).
+Proof. exact p_map_fields_write. Qed.
+Print Assumptions c09_header_fields_roundtrip.
+
+(* every INFO / FORMAT / FILTER / ALT / contig line: the written map (ID, Number, Type, Description,
+   length, md5, URL, other fields in insertion order, IDX) is parsed back to the same map.  map_ok:
+   ID / md5 / URL are raw-safe, the tags the kind requires are present and the others absent,
+   Number is a count <= usize::MAX or A R G '.' (for FORMAT also LA LR LG P M), a FORMAT Type is not Flag, length and IDX fit
+   usize, other keys are distinct, contain no '=', do not start with '>' and are not standard tags
+   of the kind (their values are arbitrary bytes) *)
+Theorem c09_header_map_line_roundtrip : forall k m rest, map_ok k m ->
+  p_map k (60 :: join 44 (map_fields k m) ++ 62 :: rest) = Some m.
+Proof. exact map_line_roundtrip. Qed.
+Print Assumptions c09_header_map_line_roundtrip.
+
+(* FORMER DEFECT header-format-number-la-lr-lg-p-m-unparsable (repaired, 3f7219b): the FORMAT numbers
+   LA / LR / LG / P / M are written and now parsed back (they are inside map_ok for FORMAT, so
+   c09_header_map_line_roundtrip covers them); for INFO the same texts stay invalid *)
+Theorem c09_header_format_number_local_roundtrip : forall n, In n [HLA; HLR; HLG; HP; HM] ->
+  p_num KFormat (num_text n) = Some n /\ p_num KInfo (num_text n) = None.
+Proof. exact format_number_local. Qed.
+Print Assumptions c09_header_format_number_local_roundtrip.
+
+Example c09_header_format_number_local_example :
+  p_map KFormat (60 :: join 44 (map_fields KFormat m_la) ++ [62]) = Some m_la /\ m_num m_la = Some HLA.
+Proof. split; [exact (proj1 witness_format_number_local)|reflexivity]. Qed.
+
+(* parse -> write is NOT a fixed point of header text (field order, '+' in numbers and text after
+   '>' are normalised); the rewritten text is a fixed point *)
+Theorem c09_header_parse_write_fixed_point_refuted :
+  exists ls ls' h, parse_header ls = Some h /\ write_header h = Some ls' /\ ls' <> ls /\
+                   parse_header ls' = Some h.
+Proof.
+  destruct witness_parse_write_not_fixed as (h & A & B & C & D).
+  exists hw_lines_in, hw_lines_out, h. repeat split; assumption.
+Qed.
+Print Assumptions c09_header_parse_write_fixed_point_refuted.
+
+(* the remaining full statement: all lines of a header together (map ids distinct per kind,
+   unstructured values that the parser does not take for a map, sample names without TAB and
+   distinct) *)
+Definition c09_header_roundtrip_full_statement (header_ok : vheader -> Prop) : Prop :=
+  forall h ls, header_ok h -> write_header h = Some ls -> parse_header ls = Some h.
 
 (* Lazy = eager: the span-relevant fields (INFO END, INFO SVLEN, FORMAT LEN) written and read back
    by the lazy and by the eager reader give the same variant_end and variant_span, equal to those
